@@ -4,27 +4,30 @@ Local Open Scope nat_scope.
 
 (** * Association lists *)
 Section AssocLemmas.
-  Context {K V : Type} (dec : forall a b : K, {a = b} + {a <> b}).
-  Lemma lookup_In k (c : list (K * V)) v : lookup dec k c = Some v -> In (k, v) c.
-  Proof.
-    induction c as [|[k' v'] c IH]; cbn [lookup]; [discriminate|].
-    destruct (dec k k') as [->|_]; intros H; [inversion H; left; reflexivity | right; auto].
-  Qed.
+  Context {K V : Type} (dec : K -> K -> bool).
   Lemma aset_In k (v : V) c e : In e (aset dec k v c) -> e = (k, v) \/ In e c.
   Proof.
     induction c as [|[k' v'] c IH]; cbn [aset].
     - intros [<-|[]]; left; reflexivity.
-    - destruct (dec k k') as [->|_]; cbn [In].
+    - destruct (dec k k'); cbn [In].
       + intros [<-|H]; [left; reflexivity | right; right; exact H].
       + intros [<-|H]; [right; left; reflexivity|]. destruct (IH H) as [->|H']; [left; reflexivity | right; right; exact H'].
   Qed.
   Lemma adel_In k (c c' : list (K * V)) e : adel dec k c = Some c' -> In e c' -> In e c.
   Proof.
     revert c'. induction c as [|[k' v'] c IH]; intros c'; cbn [adel]; [discriminate|].
-    destruct (dec k k') as [->|_].
+    destruct (dec k k').
     - intros H; inversion H; subst. intros; right; assumption.
     - destruct (adel dec k c) as [r|]; cbn [option_map]; [|discriminate].
       intros H; inversion H; subst. intros [<-|H']; [left; reflexivity | right; apply (IH r); auto].
+  Qed.
+  (** a hit returns an entry stored under this very key: the only place where the
+      soundness of the equality test (no key collision) is used *)
+  Hypothesis dec_sound : forall a b, dec a b = true -> a = b.
+  Lemma lookup_In k (c : list (K * V)) v : lookup dec k c = Some v -> In (k, v) c.
+  Proof.
+    induction c as [|[k' v'] c IH]; cbn [lookup]; [discriminate|].
+    destruct (dec k k') eqn:E; intros H; [inversion H; apply dec_sound in E; subst; left; reflexivity | right; auto].
   Qed.
   Lemma memo_list_ok (f : K -> V) ks (c : list (K * V)) :
     (forall k v, In (k, v) c -> v = f k) ->
@@ -48,16 +51,16 @@ Proof.
 Qed.
 
 Section StripLemmas.
-  Context {K B C : Type} (dec : forall a b : K, {a = b} + {a <> b}).
+  Context {K B C : Type} (dec : K -> K -> bool).
   Lemma strip_aset k (v : B) (x : C) l : strip (aset dec k (v, x) l) = aset dec k v (strip l).
   Proof.
     induction l as [|[k' [v' x']] l IH]; cbn [aset strip map fst snd]; [reflexivity|].
-    destruct (dec k k') as [->|_]; cbn [map fst snd]; [reflexivity|]. f_equal. exact IH.
+    destruct (dec k k'); cbn [map fst snd]; [reflexivity|]. f_equal. exact IH.
   Qed.
   Lemma strip_adel k (l : list (K * (B * C))) : adel dec k (strip l) = option_map strip (adel dec k l).
   Proof.
     induction l as [|[k' [v' x']] l IH]; cbn [adel strip map fst snd]; [reflexivity|].
-    destruct (dec k k') as [->|_]; [reflexivity|].
+    destruct (dec k k'); [reflexivity|].
     change (map (fun e : K * (B * C) => (fst e, fst (snd e))) l) with (strip l). rewrite IH.
     destruct (adel dec k l); reflexivity.
   Qed.
@@ -105,6 +108,23 @@ Section Proofs.
   Local Notation caches_coherent := (caches_coherent M).
   Local Notation inst_coherent := (inst_coherent M).
 
+  Lemma mkey_dec_sound a b : mkey_dec M a b = true -> a = b.
+  Proof.
+    revert b. induction a as [|[n1 c1] a IH]; intros [|[n2 c2] b]; cbn [mkey_dec]; intros E; try reflexivity; try discriminate.
+    apply andb_prop in E. destruct E as [E E3]. apply andb_prop in E. destruct E as [E1 E2].
+    apply sg_mname_eqb_spec in E1. apply sg_cmval_eqb_spec in E2. apply IH in E3. congruence.
+  Qed.
+  Lemma key_dec_sound a b : key_dec M a b = true -> a = b.
+  Proof.
+    destruct a as [[t1 m1] v1], b as [[t2 m2] v2]. cbn [key_dec]. intros E.
+    apply andb_prop in E. destruct E as [E E3]. apply andb_prop in E. destruct E as [E1 E2].
+    apply Nat.eqb_eq in E1. apply mkey_dec_sound in E2. subst.
+    destruct t1 as [x|], t2 as [y|]; try discriminate; [|reflexivity].
+    apply sg_tstage_eqb_spec in E3. subst. reflexivity.
+  Qed.
+  Lemma tkey_dec_sound a b : sg_tkey_eqb M a b = true -> a = b.
+  Proof. apply sg_tkey_eqb_spec. Qed.
+
   (** ** Reading confusion matrices and pmfs through their caches *)
   Lemma content_c_ok s mods : cm_coherent s mods -> content_c M s mods = content M s (strip mods).
   Proof.
@@ -138,7 +158,7 @@ Section Proofs.
   Proof.
     intros [Hd Hg] Ht. unfold dm_none, memo, mk_key.
     destruct (lookup (key_dec M) (None, mc, ver) (fst c)) as [v|] eqn:E; cbn [fst snd].
-    - apply lookup_In in E. destruct (Hd _ _ _ _ E) as [tb' [Ht' ->]]. rewrite Ht in Ht'. inversion Ht'; subst.
+    - apply (lookup_In _ (key_dec_sound)) in E. destruct (Hd _ _ _ _ E) as [tb' [Ht' ->]]. rewrite Ht in Ht'. inversion Ht'; subst.
       split; [reflexivity | split; assumption].
     - split; [reflexivity|]. split; [|exact Hg]. cbn [fst]. intros t mc' v val [H|H]; [|eauto].
       inversion H; subst. exists tb. split; [exact Ht | reflexivity].
@@ -149,7 +169,7 @@ Section Proofs.
   Proof.
     intros Hc Ht. unfold gm_none, mk_key.
     destruct (lookup (key_dec M) (None, mc, ver) (snd c)) as [g|] eqn:E; cbn [fst snd].
-    - apply lookup_In in E. destruct Hc as [Hd Hg]. destruct (Hg _ _ _ _ E) as [tb' [Ht' ->]]. rewrite Ht in Ht'.
+    - apply (lookup_In _ (key_dec_sound)) in E. destruct Hc as [Hd Hg]. destruct (Hg _ _ _ _ E) as [tb' [Ht' ->]]. rewrite Ht in Ht'.
       inversion Ht'; subst. split; [reflexivity | split; assumption].
     - destruct (dm_none_ok h s ver mc tb c Hc Ht) as [Hv [Hd Hg]].
       destruct (dm_none M KFull s ver mc tb c) as [d c1]. cbn [fst snd] in *. subst d.
@@ -165,7 +185,7 @@ Section Proofs.
     destruct (dm_none M KFull s ver mc tb c) as [full c1]. cbn [fst snd] in *. subst full.
     destruct t as [ts|]; [|split; [reflexivity | exact Hc1]].
     unfold mk_key. destruct (lookup (key_dec M) (Some ts, mc, ver) (fst c1)) as [v|] eqn:E; cbn [fst snd].
-    - apply lookup_In in E. destruct Hc1 as [Hd Hg]. destruct (Hd _ _ _ _ E) as [tb' [Ht' ->]]. rewrite Ht in Ht'.
+    - apply (lookup_In _ (key_dec_sound)) in E. destruct Hc1 as [Hd Hg]. destruct (Hd _ _ _ _ E) as [tb' [Ht' ->]]. rewrite Ht in Ht'.
       inversion Ht'; subst. split; [reflexivity | split; assumption].
     - destruct (gm_none_ok h s ver mc tb c1 Hc1 Ht) as [_ [Hd Hg]].
       destruct (gm_none M KFull s ver mc tb c1) as [g c2]. cbn [fst snd] in *.
@@ -179,7 +199,7 @@ Section Proofs.
   Proof.
     intros Hc Hdata. unfold gm_at, mk_key.
     destruct (lookup (key_dec M) (t, mc, ver) (snd c)) as [g|] eqn:E; cbn [fst snd].
-    - apply lookup_In in E. destruct Hc as [Hd Hg]. destruct (Hg _ _ _ _ E) as [tb' [Ht' ->]].
+    - apply (lookup_In _ (key_dec_sound)) in E. destruct Hc as [Hd Hg]. destruct (Hg _ _ _ _ E) as [tb' [Ht' ->]].
       subst data. rewrite Ht'. split; [reflexivity | split; assumption].
     - destruct data as [tb|]; [|split; [reflexivity | exact Hc]]. symmetry in Hdata.
       destruct (dm_at_ok h t s ver mc tb c Hc Hdata) as [Hv [Hd Hg]].
@@ -231,7 +251,7 @@ Section Proofs.
       intros n' v' c' Hin. apply aset_In in Hin. destruct Hin as [H|H]; [inversion H | eauto].
     - (* UpdMod *)
       cbn [abs_i c_mods]. rewrite lookup_strip.
-      destruct (lookup (sg_mname_dec M) n (i_mods M x)) as [[v cc]|]; cbn [option_map fst].
+      destruct (lookup (sg_mname_eqb M) n (i_mods M x)) as [[v cc]|]; cbn [option_map fst].
       2:{ simp_inst. split; [reflexivity|]. split; [reflexivity|]. split; [|exact Hmc]. coh_split. }
       destruct (sg_apply_mupd M u v) as [v'|].
       2:{ simp_inst. split; [reflexivity|]. split; [reflexivity|]. split; [|exact Hmc]. coh_split. }
@@ -240,7 +260,7 @@ Section Proofs.
       intros n' v'' c' Hin. apply aset_In in Hin. destruct Hin as [H|H]; [inversion H | eauto].
     - (* DelMod *)
       cbn [abs_i c_mods]. rewrite strip_adel.
-      destruct (adel (sg_mname_dec M) n (i_mods M x)) as [m|] eqn:E; cbn [option_map].
+      destruct (adel (sg_mname_eqb M) n (i_mods M x)) as [m|] eqn:E; cbn [option_map].
       2:{ simp_inst. split; [reflexivity|]. split; [reflexivity|]. split; [|exact Hmc]. coh_split. }
       unfold abs_i; simp_inst.
       split; [reflexivity|]. split; [reflexivity|]. split; [|exact Hmc]. coh_split.
@@ -276,7 +296,7 @@ Section Proofs.
       intros t' d' p' Hin. apply aset_In in Hin. destruct Hin as [H|H]; [inversion H; subst; reflexivity | eauto].
     - (* DelDist *)
       cbn [abs_i c_dists]. rewrite strip_adel.
-      destruct (adel (sg_tstage_dec M) t (i_dists M x)) as [m|] eqn:E; cbn [option_map].
+      destruct (adel (sg_tstage_eqb M) t (i_dists M x)) as [m|] eqn:E; cbn [option_map].
       2:{ simp_inst. split; [reflexivity|]. split; [reflexivity|]. split; [|exact Hmc]. coh_split. }
       unfold abs_i; simp_inst.
       split; [reflexivity|]. split; [reflexivity|]. split; [|exact Hmc]. coh_split.
@@ -333,8 +353,8 @@ Section Proofs.
       coh_split; try (rewrite Ed; exact Hdata); try (apply fill_cms_coherent, Hcm); try (destruct c'; exact Hc').
     - (* Query *)
       unfold query_spec, pmfs_spec, gm_spec. cbn [abs_i c_static c_mods c_data c_params c_dists c_maxt].
-      destruct (memo_list_ok (sg_tkey_dec M) (sg_tensor M) (sg_tkeys M (i_static M x) (i_params M x)) mc Hmc) as [Htv Hmc'].
-      destruct (memo_list (sg_tkey_dec M) (sg_tensor M) (sg_tkeys M (i_static M x) (i_params M x)) mc) as [tv mc'].
+      destruct (memo_list_ok (sg_tkey_eqb M) tkey_dec_sound (sg_tensor M) (sg_tkeys M (i_static M x) (i_params M x)) mc Hmc) as [Htv Hmc'].
+      destruct (memo_list (sg_tkey_eqb M) (sg_tensor M) (sg_tkeys M (i_static M x) (i_params M x)) mc) as [tv mc'].
       cbn [fst snd] in Htv, Hmc'. subst tv.
       destruct (gm_list_ok h (sg_qstages M q (i_static M x) (map fst (i_dists M x)) (i_data M x)) (i_static M x) (i_version M x)
                   (i_data M x) (content_c M (i_static M x) (i_mods M x)) _ Hcc Hdata) as [Hgs Hc'].
@@ -360,18 +380,18 @@ Section Proofs.
       unfold abs_i; simp_inst.
       split; [reflexivity|]. split.
       { f_equal. unfold strip. rewrite map_map. apply map_ext. intros [n' [v' c']]. cbn [fst snd].
-        destruct (sg_mname_dec M n n'); reflexivity. }
+        destruct (sg_mname_eqb M n n'); reflexivity. }
       split; [|exact Hmc]. coh_split.
       intros n' v' c' Hin. apply in_map_iff in Hin. destruct Hin as [[n2 [v2 c2]] [E Hin]].
-      cbn [fst snd] in E. destruct (sg_mname_dec M n n2); inversion E; subst. eauto.
+      cbn [fst snd] in E. destruct (sg_mname_eqb M n n2); inversion E; subst. eauto.
     - (* EvictFrozen *)
       unfold abs_i; simp_inst.
       split; [reflexivity|]. split.
       { f_equal. unfold strip. rewrite map_map. apply map_ext. intros [n' [v' c']]. cbn [fst snd].
-        destruct (sg_tstage_dec M t n'); reflexivity. }
+        destruct (sg_tstage_eqb M t n'); reflexivity. }
       split; [|exact Hmc]. coh_split.
       intros n' v' c' Hin. apply in_map_iff in Hin. destruct Hin as [[n2 [v2 c2]] [E Hin]].
-      cbn [fst snd] in E. destruct (sg_tstage_dec M t n2); inversion E; subst. eauto.
+      cbn [fst snd] in E. destruct (sg_tstage_eqb M t n2); inversion E; subst. eauto.
   Qed.
 
   (** ** One step of the whole machine *)
@@ -461,9 +481,9 @@ Section Proofs.
     - reflexivity.
     - reflexivity.
     - cbn [fst snd]. unfold abs_i; cbn [set_mods i_static i_mods i_data i_params i_dists i_maxt]. f_equal.
-      unfold strip. rewrite map_map. apply map_ext. intros [n' [v' c']]. cbn [fst snd]. destruct (sg_mname_dec M n n'); reflexivity.
+      unfold strip. rewrite map_map. apply map_ext. intros [n' [v' c']]. cbn [fst snd]. destruct (sg_mname_eqb M n n'); reflexivity.
     - cbn [fst snd]. unfold abs_i; cbn [set_dists i_static i_mods i_data i_params i_dists i_maxt]. f_equal.
-      unfold strip. rewrite map_map. apply map_ext. intros [n' [v' c']]. cbn [fst snd]. destruct (sg_tstage_dec M t n'); reflexivity.
+      unfold strip. rewrite map_map. apply map_ext. intros [n' [v' c']]. cbn [fst snd]. destruct (sg_tstage_eqb M t n'); reflexivity.
   Qed.
 
   Lemma cstep_gen_pure_abs mode st o :
